@@ -24,12 +24,29 @@ type nodeSpec struct {
 	IDB string `json:"idb,omitempty"` // "" = never SetID (idBytes nil); "id" = SetID(own id) as NewNode does; else hex passed to SetID before AddNode
 }
 
+// addOp = one Pool.AddNode call: pool P (0 = the sharder pool under test, 1 = another pool that may
+// share node objects with it), node spec S; New = create a fresh node object for the spec instead of
+// re-using the object created last for it.
+type addOp struct {
+	P   int  `json:"p"`
+	S   int  `json:"s"`
+	New bool `json:"new,omitempty"`
+}
+
 type input struct {
-	Nodes   []nodeSpec `json:"nodes"` // insertion order; repeated PK = replacement of the node object
+	Specs   []nodeSpec `json:"specs"` // two specs may carry the same public key (same id, other object / idBytes)
+	Hist    []addOp    `json:"hist"`
 	Hash    string     `json:"hash"`
 	K       int        `json:"k"`
-	Queries []int      `json:"queries"` // index into Nodes, or -1 for a node outside the pool
-	Order2  []int      `json:"order2"`  // second insertion order (permutation of node indices)
+	Queries []int      `json:"queries"` // index into Specs (its key), or -1 for a node outside the pool
+}
+
+func specKey(s nodeSpec) string {
+	pkb, err := hex.DecodeString(s.PK)
+	if err != nil {
+		panic(err)
+	}
+	return encryption.Hash(pkb)
 }
 
 func mkNode(s nodeSpec) *node.Node {
@@ -135,6 +152,7 @@ func eqStrs(a, b []string) bool {
 }
 
 type outcome struct {
+	fails   []string
 	fail    string
 	kinds   map[string]int
 	coq     string
@@ -150,19 +168,80 @@ func optBool(b *bool) string {
 
 func run(w *world, in input) outcome {
 	out := outcome{kinds: map[string]int{}}
-	order1 := make([]int, len(in.Nodes))
-	for i := range order1 {
-		order1[i] = i
-	}
-	p1, objs1 := buildPool(in.Nodes, order1)
 	setFail := func(f string) {
 		if out.fail == "" {
 			out.fail = f
 		}
+		for _, x := range out.fails {
+			if x == f {
+				return
+			}
+		}
+		out.fails = append(out.fails, f)
 	}
-	dupKeys := len(objs1) != len(in.Nodes)
+	pools := []*node.Pool{node.NewPool(node.NodeTypeSharder), node.NewPool(node.NodeTypeSharder)}
+	objs := make([]*node.Node, len(in.Specs))
+	cur0 := map[string]int{} // key -> spec of the object pool 0 holds for it
+	var hist0 []int
+	shared := map[*node.Node]int{}
+	for _, a := range in.Hist {
+		if a.S < 0 || a.S >= len(in.Specs) || a.P < 0 || a.P > 1 {
+			continue
+		}
+		if objs[a.S] == nil || a.New {
+			objs[a.S] = mkNode(in.Specs[a.S])
+		}
+		if err := pools[a.P].AddNode(objs[a.S]); err != nil {
+			panic(err)
+		}
+		shared[objs[a.S]] |= 1 << uint(a.P)
+		if a.P == 0 {
+			k := specKey(in.Specs[a.S])
+			if _, had := cur0[k]; had {
+				out.kinds["readd-existing-key"]++
+			}
+			cur0[k] = a.S
+			hist0 = append(hist0, a.S)
+		}
+	}
+	for _, m := range shared {
+		if m == 3 {
+			out.kinds["node-object-in-two-pools"]++
+		}
+	}
+	p1 := pools[0]
+	dupKeys := len(hist0) != len(cur0)
 	if dupKeys {
 		out.kinds["pool-with-replaced-node"]++
+	}
+
+	// the pool's node list must be a duplicate-free listing of its key set, holding the map's objects
+	keys := p1.Keys()
+	sort.Strings(keys)
+	listed := p1.CopyNodes()
+	objs1 := map[string]*node.Node{}
+	var setIdx []string
+	stale := false
+	if len(listed) != len(keys) || p1.Size() != len(keys) || len(keys) != len(cur0) {
+		setFail("pool-nodes-not-a-duplicate-free-listing-of-the-key-set")
+	}
+	for i, nd := range listed {
+		if i < len(keys) && nd.GetKey() != keys[i] {
+			setFail("pool-nodes-not-a-duplicate-free-listing-of-the-key-set")
+		}
+		if p1.GetNode(nd.GetKey()) != nd {
+			setFail("pool-nodes-not-a-duplicate-free-listing-of-the-key-set")
+		}
+		setIdx = append(setIdx, fmt.Sprintf("%d", nd.SetIndex))
+		if nd.SetIndex != i {
+			stale = true
+		}
+	}
+	if stale {
+		out.kinds["setindex-differs-from-position"]++
+	}
+	for _, k := range keys {
+		objs1[k] = p1.GetNode(k)
 	}
 
 	// scores as the real scorer sees them
@@ -204,8 +283,6 @@ func run(w *world, in input) outcome {
 
 	// all nodes of the pool + the requested queries
 	w.setup(p1, in.K)
-	keys := p1.Keys()
-	sort.Strings(keys)
 	ans1 := map[string]answer{}
 	for _, k := range keys {
 		ans1[k] = w.ask(in.Hash, objs1[k])
@@ -279,38 +356,47 @@ func run(w *world, in input) outcome {
 				}
 			}
 		}
-		// every node computes the same set: other insertion orders, fresh objects, a clone, a JSON round trip
-		if !dupKeys {
-			alts := []*node.Pool{}
-			altObjs := []map[string]*node.Node{}
-			if len(in.Order2) == len(in.Nodes) {
-				p2, o2 := buildPool(in.Nodes, in.Order2)
-				alts, altObjs = append(alts, p2), append(altObjs, o2)
-			}
-			rev := make([]int, len(in.Nodes))
-			for i := range rev {
-				rev[i] = len(in.Nodes) - 1 - i
-			}
-			p3, o3 := buildPool(in.Nodes, rev)
-			alts, altObjs = append(alts, p3), append(altObjs, o3)
-			pc := p1.Clone()
-			oc := map[string]*node.Node{}
-			for _, x := range pc.CopyNodes() {
-				oc[x.GetKey()] = x
-			}
-			alts, altObjs = append(alts, pc), append(altObjs, oc)
-			for ai, p := range alts {
-				w.setup(p, in.K)
-				for _, k := range keys {
-					a := w.ask(in.Hash, altObjs[ai][k])
-					out.kinds["oracle-order-independence"]++
-					if !eqBoolPtr(a.is, ans1[k].is) || !eqStrs(a.nodes, ans1[k].nodes) {
-						setFail("set-depends-on-insertion-order")
-					}
+		// every node computes the same set from the sharder SET alone: fresh pools over the current key set
+		// (fresh node objects, three insertion orders) and a clone must give the same answers
+		var curSpecs []nodeSpec
+		for _, k := range keys {
+			curSpecs = append(curSpecs, in.Specs[cur0[k]])
+		}
+		nn := len(curSpecs)
+		orders := [][]int{make([]int, nn), make([]int, nn), nil}
+		for i := 0; i < nn; i++ {
+			orders[0][i] = i
+			orders[1][i] = nn - 1 - i
+		}
+		for i := 0; i < nn; i += 2 {
+			orders[2] = append(orders[2], i)
+		}
+		for i := 1; i < nn; i += 2 {
+			orders[2] = append(orders[2], i)
+		}
+		alts := []*node.Pool{}
+		altObjs := []map[string]*node.Node{}
+		for _, ord := range orders {
+			p2, o2 := buildPool(curSpecs, ord)
+			alts, altObjs = append(alts, p2), append(altObjs, o2)
+		}
+		pc := p1.Clone()
+		oc := map[string]*node.Node{}
+		for _, x := range pc.CopyNodes() {
+			oc[x.GetKey()] = x
+		}
+		alts, altObjs = append(alts, pc), append(altObjs, oc)
+		for ai, p := range alts {
+			w.setup(p, in.K)
+			for _, k := range keys {
+				a := w.ask(in.Hash, altObjs[ai][k])
+				out.kinds["oracle-same-set-as-fresh-pool"]++
+				if !eqBoolPtr(a.is, ans1[k].is) || !eqStrs(a.nodes, ans1[k].nodes) {
+					setFail("set-depends-on-pool-history-or-insertion-order")
 				}
 			}
-			w.setup(p1, in.K)
 		}
+		w.setup(p1, in.K)
 	}
 
 	// ---- Coq case ----
@@ -323,11 +409,10 @@ func run(w *world, in input) outcome {
 		rank[k] = i
 	}
 	keyZ := func(k string) string { return fmt.Sprintf("%d", rank[k]) }
-	nodes := make([]string, len(in.Nodes))
-	for i, s := range in.Nodes {
-		// AddNode recomputes the id from the public key; idBytes stay as set
-		pkb, _ := hex.DecodeString(s.PK)
-		id := encryption.Hash(pkb)
+	nodes := make([]string, len(hist0))
+	for i, si := range hist0 {
+		s := in.Specs[si]
+		id := specKey(s)
 		idb := s.IDB
 		if idb == "id" {
 			idb = id
@@ -361,16 +446,17 @@ func run(w *world, in input) outcome {
 		qs = append(qs, fmt.Sprintf("{| rpq_key := %s; rpq_is := %s; rpq_with := %s |}", keyZ(key), optBool(a.is), with))
 	}
 	for _, qi := range in.Queries {
-		if qi < 0 || qi >= len(in.Nodes) {
+		if qi < 0 || qi >= len(in.Specs) {
 			q(foreign.GetKey(), ansForeign)
 			continue
 		}
-		pkb, _ := hex.DecodeString(in.Nodes[qi].PK)
-		k := encryption.Hash(pkb)
-		q(k, ans1[k])
+		k := specKey(in.Specs[qi])
+		if a, ok := ans1[k]; ok {
+			q(k, a)
+		}
 	}
-	out.coq = fmt.Sprintf("{| rpc_nodes := %s; rpc_hash := %s; rpc_k := %s; rpc_scores := %s; rpc_queries := %s |}",
-		vh.List(nodes), hashT, vh.Z(int64(in.K)), scoresT, vh.List(qs))
+	out.coq = fmt.Sprintf("{| rpc_nodes := %s; rpc_setidx := %s; rpc_hash := %s; rpc_k := %s; rpc_scores := %s; rpc_queries := %s |}",
+		vh.List(nodes), vh.List(setIdx), hashT, vh.Z(int64(in.K)), scoresT, vh.List(qs))
 	out.nontriv = !anyPanic && !scorePanic && hexErr == nil && in.K >= 1 && in.K < n && len(set1) < n
 	return out
 }
@@ -393,6 +479,7 @@ func idOf(pk string) []byte {
 
 func gen(r *vh.Rand, malformed bool) input {
 	var in input
+	hmode := r.Intn(2)
 	n := r.Range(0, 12)
 	if r.Chance(1, 8) {
 		n = r.Range(13, 30)
@@ -411,7 +498,7 @@ func gen(r *vh.Rand, malformed bool) input {
 		default:
 			s.IDB = hex.EncodeToString([]byte{[]byte{0, 1, 3, 7, 15, 255, 128, 85}[r.Intn(8)]})
 		}
-		in.Nodes = append(in.Nodes, s)
+		in.Specs = append(in.Specs, s)
 	}
 	// hash: random, near one node's id (few differing bits), equal to an id, all zero / all ones
 	switch r.Intn(6) {
@@ -419,7 +506,7 @@ func gen(r *vh.Rand, malformed bool) input {
 		in.Hash = randHex(r, 32)
 	case 2:
 		if n > 0 {
-			b := idOf(in.Nodes[r.Intn(n)].PK)
+			b := idOf(in.Specs[r.Intn(n)].PK)
 			for i := 0; i < r.Intn(6); i++ {
 				b[r.Intn(32)] ^= 1 << uint(r.Intn(8))
 			}
@@ -448,19 +535,47 @@ func gen(r *vh.Rand, malformed bool) input {
 			in.Hash = randHex(r, 64)
 		case 4:
 			if n > 0 { // the same public key added twice: AddNode replaces the node object
-				d := in.Nodes[r.Intn(n)]
+				d := in.Specs[r.Intn(n)]
 				if r.Bool() {
 					d.IDB = ""
 				}
-				in.Nodes = append(in.Nodes, d)
+				in.Specs = append(in.Specs, d)
 			}
 		default:
 			in.K = []int{-1 << 31, 1 << 30, -5}[r.Intn(3)]
 		}
 	}
-	in.Order2 = r.Perm(len(in.Nodes))
-	for i := 0; i < 3 && len(in.Nodes) > 0; i++ {
-		in.Queries = append(in.Queries, r.Intn(len(in.Nodes)))
+	// AddNode history: 1/2 plain (every spec once into pool 0, shuffled); else a longer history over
+	// two pools with re-adds of existing keys (same or new object) and node objects shared by both pools
+	if hmode == 0 {
+		for _, i := range r.Perm(len(in.Specs)) {
+			in.Hist = append(in.Hist, addOp{P: 0, S: i, New: true})
+		}
+	} else {
+		ns := len(in.Specs)
+		for _, i := range r.Perm(ns) {
+			if r.Chance(4, 5) {
+				in.Hist = append(in.Hist, addOp{P: 0, S: i, New: true})
+			}
+		}
+		for j := 0; j < r.Range(ns, 3*ns+2) && ns > 0; j++ {
+			a := addOp{P: 0, S: r.Intn(ns), New: r.Chance(1, 3)}
+			if r.Chance(2, 5) {
+				a.P = 1
+			}
+			in.Hist = append(in.Hist, a)
+		}
+		// typical trouble: object goes to the other pool (its SetIndex is rewritten there), sometimes back
+		for j := 0; j < r.Range(0, 3) && ns > 0; j++ {
+			s := r.Intn(ns)
+			in.Hist = append(in.Hist, addOp{P: 0, S: s}, addOp{P: 1, S: s})
+			if r.Bool() {
+				in.Hist = append(in.Hist, addOp{P: 0, S: s})
+			}
+		}
+	}
+	for i := 0; i < 3 && len(in.Specs) > 0; i++ {
+		in.Queries = append(in.Queries, r.Intn(len(in.Specs)))
 	}
 	in.Queries = append(in.Queries, -1)
 	return in
@@ -469,17 +584,39 @@ func gen(r *vh.Rand, malformed bool) input {
 func key(in input) string {
 	var b strings.Builder
 	fmt.Fprintf(&b, "%s|%d", in.Hash, in.K)
-	for _, n := range in.Nodes {
+	for _, n := range in.Specs {
 		fmt.Fprintf(&b, "|%s,%s", n.PK, n.IDB)
 	}
+	for _, a := range in.Hist {
+		fmt.Fprintf(&b, "|%d,%d,%v", a.P, a.S, a.New)
+	}
 	return b.String()
+}
+
+func hasFail(o outcome, f string) bool {
+	for _, x := range o.fails {
+		if x == f {
+			return true
+		}
+	}
+	return false
+}
+
+func poolSize(in input) int {
+	seen := map[string]bool{}
+	for _, a := range in.Hist {
+		if a.P == 0 && a.S >= 0 && a.S < len(in.Specs) {
+			seen[in.Specs[a.S].PK] = true
+		}
+	}
+	return len(seen)
 }
 
 func main() {
 	o := vh.ParseFlags()
 	sc.Init()
 	rep := vh.NewReport("replicate", "C42", o)
-	rep.Rule = "sharder pools of 0-30 nodes built with the real Pool.AddNode in the given, a shuffled and the reversed order, cloned; ids set as NewNode does / never set " +
+	rep.Rule = "sharder pools of 0-30 nodes built by real Pool.AddNode histories (half: every node once in a shuffled order; half: histories over two pools with re-adds of existing keys by the same or a new object and node objects shared by both pools, so SetIndex fields are stale), each compared with fresh pools over the same key set in three insertion orders and with a clone; ids set as NewNode does / never set " +
 		"(magic-block decode path) / mixed / crafted 1-byte ids (dense ties); hashes random, a few bits from a node id, all-zero, all-one; k in {-1,0,1,2,3,n/2,n-1,n,n+1,n+5}; " +
 		"malformed stream: non-hex, short (panic), empty, long hashes, repeated public key, extreme k; exhaustive: all multisets of <=4 one-byte ids x k=0..5; " +
 		"non-trivial = valid hash, 1 <= k < n and a proper subset of the sharders chosen; distinct by node list, hash and k"
@@ -496,28 +633,41 @@ func main() {
 			cf.Add(res.coq)
 			rep.CaseInputs = append(rep.CaseInputs, in)
 		}
-		if res.fail != "" {
-			keep := vh.ShrinkIdx(len(in.Nodes), func(keep []int) bool {
+		for _, failKind := range res.fails {
+			mk := func(keep []int) input {
 				in2 := in
-				in2.Nodes = nil
+				in2.Hist = nil
 				for _, i := range keep {
-					in2.Nodes = append(in2.Nodes, in.Nodes[i])
+					in2.Hist = append(in2.Hist, in.Hist[i])
 				}
-				in2.Order2 = nil
 				in2.Queries = []int{-1}
-				return run(w, in2).fail == res.fail
-			})
-			in2 := in
-			in2.Nodes = nil
-			for _, i := range keep {
-				in2.Nodes = append(in2.Nodes, in.Nodes[i])
+				for i := range in2.Specs {
+					in2.Queries = append(in2.Queries, i)
+				}
+				return in2
 			}
-			in2.Order2 = nil
+			keep := vh.ShrinkIdx(len(in.Hist), func(keep []int) bool { return hasFail(run(w, mk(keep)), failKind) })
+			in2 := mk(keep)
+			// drop the specs the kept history does not mention
+			used := map[int]int{}
+			var specs []nodeSpec
+			for i := range in2.Hist {
+				s := in2.Hist[i].S
+				if _, ok := used[s]; !ok {
+					used[s] = len(specs)
+					specs = append(specs, in2.Specs[s])
+				}
+				in2.Hist[i].S = used[s]
+			}
+			in2.Specs = specs
 			in2.Queries = []int{-1}
-			for i := range in2.Nodes {
+			for i := range specs {
 				in2.Queries = append(in2.Queries, i)
 			}
-			rep.Violate("C42:"+res.fail, "replicating sharders: "+res.fail, in2)
+			if !hasFail(run(w, in2), failKind) {
+				in2 = mk(keep)
+			}
+			rep.Violate("C42:"+failKind, "replicating sharders: "+failKind, in2)
 		}
 	}
 	finish := func() {
@@ -540,11 +690,11 @@ func main() {
 	// pools above 12 nodes go to the oracle always, to the model only every 10th (large literals are slow to type-check)
 	for i := 0; i < o.N(300, 3000); i++ {
 		in := gen(rnd, false)
-		handle(in, i < o.N(170, 1700) && (len(in.Nodes) <= 12 || i%10 == 0))
+		handle(in, i < o.N(170, 1700) && (poolSize(in) <= 12 && len(in.Hist) <= 40 || i%10 == 0))
 	}
 	for i := 0; i < o.N(100, 1000); i++ {
 		in := gen(rnd, true)
-		handle(in, i < o.N(60, 600) && (len(in.Nodes) <= 12 || i%10 == 0))
+		handle(in, i < o.N(60, 600) && (poolSize(in) <= 12 && len(in.Hist) <= 40 || i%10 == 0))
 	}
 	// exhaustive small scope: multisets of at most 4 one-byte ids (scores 0,1,2,3,8 against hash 00), k = 0..5
 	ids := []string{"00", "01", "03", "07", "ff"}
@@ -555,10 +705,12 @@ func main() {
 			for k := 0; k <= 5; k++ {
 				in := input{Hash: "00", K: k, Queries: []int{-1}}
 				for i, idb := range cur {
-					in.Nodes = append(in.Nodes, nodeSpec{PK: fmt.Sprintf("%064x", 1000+nExh*7+i), IDB: idb})
+					in.Specs = append(in.Specs, nodeSpec{PK: fmt.Sprintf("%064x", 1000+nExh*7+i), IDB: idb})
 					in.Queries = append(in.Queries, i)
 				}
-				in.Order2 = rnd.Perm(len(in.Nodes))
+				for _, j := range rnd.Perm(len(in.Specs)) {
+					in.Hist = append(in.Hist, addOp{P: 0, S: j, New: true})
+				}
 				nExh++
 				handle(in, nExh%o.N(8, 2) == 0)
 			}
